@@ -247,6 +247,9 @@ STATEFUL = {
     "kenamond.kenamond2.Kenamond2": ("pure", "kenamond2", {"R": 2.5, "D1": 2.5}),
     "blake.blake.Blake": ("pure", "blake", {"pressure_scale": 2.0e6, "cavity_radius": 0.08, "lame_mod": 30.0e9, "shear_mod": 20.0e9}),
     "ep_piston.ep_piston.EPpiston": ("pure", "ep_piston", {"up": 0.02, "model": "hypo"}),
+    "heat.rod1d.Rod1D": ("pure", "rod1d", {"TL": 1.0, "TR": 4.0, "kappa": 0.5}),
+    "heat.planar_sandwich_half.PlanarSandwichHalf": ("pure", "rod1d", {"TB": 2.0, "FT": 0.5}),
+    "heat.hutchens1.Hutchens1": ("pure", "hutchens1", {"Tb": 3.0, "b": 1.5}),
     "rmtv.rmtv.Rmtv": ("glob", "rmtv.timmes", {"rf": 0.7}),
     "suolson.suolson.SuOlson": ("glob", "suolson.timmes", {"opac": 2.0, "trad_bc_ev": 500.0}),
     "riemann.ep_riemann.IGEOS_Solver": ("attr", "riemann", {"ul": 0.5, "gr": 5.0 / 3.0, "pr": 0.2}),
